@@ -641,7 +641,50 @@ func (e *Engine) setReg(fr *Frame, v ssa.Value, val Value) {
 
 // ---------- arithmetic ----------
 
+// strBytes returns the bytes of a concrete or symbolic string value.
+func strBytes(v Value) ([]Value, bool) {
+	switch x := v.(type) {
+	case string:
+		out := make([]Value, len(x))
+		for i := 0; i < len(x); i++ {
+			out[i] = BVu(uint64(x[i]), 8)
+		}
+		return out, true
+	case SymStr:
+		return x.bytes, true
+	}
+	return nil, false
+}
+
 func (e *Engine) binop(st *State, op token.Token, xt types.Type, a, b Value) Value {
+	_, symA := a.(SymStr)
+	_, symB := b.(SymStr)
+	if symA || symB {
+		ba, ok1 := strBytes(a)
+		bb, ok2 := strBytes(b)
+		if !ok1 || !ok2 {
+			panic("string op with non-string")
+		}
+		switch op {
+		case token.ADD:
+			return SymStr{bytes: append(append([]Value(nil), ba...), bb...)}
+		case token.EQL, token.NEQ:
+			var eq *Term
+			if len(ba) != len(bb) {
+				eq = Bool(false)
+			} else {
+				eq = Bool(true)
+				for i := range ba {
+					eq = And(eq, Cmp("=", ba[i].(*Term), bb[i].(*Term)))
+				}
+			}
+			if op == token.NEQ {
+				return Not(eq)
+			}
+			return eq
+		}
+		e.unsupported(st, "ordering of symbolic strings")
+	}
 	if sa, ok := a.(string); ok {
 		sb, ok2 := b.(string)
 		if !ok2 {
@@ -856,6 +899,18 @@ func (e *Engine) convert(st *State, from, to types.Type, v Value) Value {
 	}
 	// string <-> []byte / []rune
 	if isString(from) {
+		if sy, ok := v.(SymStr); ok {
+			if sl, ok := to.Underlying().(*types.Slice); ok {
+				if w, _, _ := intWidth(sl.Elem()); w == 8 {
+					id := e.alloc(st, append([]Value(nil), sy.bytes...), "[]byte(symbolic string)")
+					return SliceV{Obj: id, Len: len(sy.bytes), Cap: len(sy.bytes), Stride: 1}
+				}
+				e.unsupported(st, "[]rune of a symbolic string")
+			}
+			if isString(to) {
+				return v
+			}
+		}
 		if sl, ok := to.Underlying().(*types.Slice); ok {
 			s := v.(string)
 			if w, _, _ := intWidth(sl.Elem()); w == 8 {
